@@ -79,29 +79,31 @@ type Exec struct {
 	trace  []Decision
 	forks  [][]Decision // alternatives discovered on this path
 
-	inputs    []InputVar
-	inNames   map[string]int
-	obls      []Obligation
-	reached   map[string]bool
-	notes     []string
-	ovl       map[*Cell]Value
-	mapOvl    map[*MapObj]*MapObj
-	steps     int
-	depth     int
-	frame     *Frame
-	funcs     map[string]bool
-	tolerant  bool // init mode: unsupported => opaque
-	ufSeen    map[string]bool
-	fresh     int
-	lockHeld  map[*Cell]bool
-	ghost     map[string]Value
-	feasQ     int
-	bufInputs []BufInput
-	lastPanic string
-	Shared    *Shared
-	endWhy    string
-	inconcl   string
-	bigs      map[*Cell]*smt.Term
+	inputs        []InputVar
+	inNames       map[string]int
+	obls          []Obligation
+	reached       map[string]bool
+	notes         []string
+	ovl           map[*Cell]Value
+	mapOvl        map[*MapObj]*MapObj
+	steps         int
+	depth         int
+	frame         *Frame
+	funcs         map[string]bool
+	tolerant      bool // init mode: unsupported => opaque
+	ufSeen        map[string]bool
+	fresh         int
+	lockHeld      map[*Cell]bool
+	ghost         map[string]Value
+	feasQ         int
+	bufInputs     []BufInput
+	lastPanic     string
+	Shared        *Shared
+	endWhy        string
+	inconcl       string
+	b58           []b58rec
+	SweepSupports int
+	SweepMs       int64
 	// statistics
 	Instrs int
 }
@@ -731,6 +733,7 @@ func (e *Exec) runFrom(fr *Frame, block *ssa.BasicBlock) Value {
 		}
 		merged = nil
 		var next *ssa.BasicBlock
+		exited := false
 		for ; i < len(block.Instrs); i++ {
 			ins := block.Instrs[i]
 			fr.cur = ins
@@ -755,7 +758,7 @@ func (e *Exec) runFrom(fr *Frame, block *ssa.BasicBlock) Value {
 						// left the region through an exit block
 						fr.prev = nb.pred
 						next = nb.block
-						block = nil
+						exited = true
 					} else {
 						merged = edges
 						next = rg.join
@@ -803,7 +806,7 @@ func (e *Exec) runFrom(fr *Frame, block *ssa.BasicBlock) Value {
 		if next == nil {
 			e.unsupported("block without terminator")
 		}
-		if block != nil {
+		if !exited {
 			fr.prev = block
 		}
 		block = next
